@@ -358,6 +358,16 @@ fn hist_step(d: &Date, op: &str) -> Result<Date, String> {
         "E" => d.earlier().next().ok_or_else(|| "none".to_string()),
         "A" => d.and_later().next().ok_or_else(|| "none".to_string()),
         "a" => d.and_earlier().next().ok_or_else(|| "none".to_string()),
+        "L3" => d.later().nth(3).ok_or_else(|| "none".to_string()),
+        "L9" => d.later().nth(9).ok_or_else(|| "none".to_string()),
+        "E3" => d.earlier().nth(3).ok_or_else(|| "none".to_string()),
+        "E9" => d.earlier().nth(9).ok_or_else(|| "none".to_string()),
+        "A3" => d.and_later().nth(3).ok_or_else(|| "none".to_string()),
+        "A9" => d.and_later().nth(9).ok_or_else(|| "none".to_string()),
+        "a3" => d.and_earlier().nth(3).ok_or_else(|| "none".to_string()),
+        "a9" => d.and_earlier().nth(9).ok_or_else(|| "none".to_string()),
+        "LS" => d.later().step_by(7).nth(1).ok_or_else(|| "none".to_string()),
+        "AS" => d.and_later().skip(7).next().ok_or_else(|| "none".to_string()),
         "Df" => match c.month_shape(d.year(), d.month()) {
             Some(s) => s.dates().next().ok_or_else(|| "none".to_string()),
             None => Err("noshape".into()),
@@ -548,6 +558,12 @@ fn answer_lib(line: &str) -> String {
             assert_eq!(k.is_skipped(), matches!(k, YearKind::Skipped));
             format!("{} {}", show_year_kind(k), c.year_length(y))
         }
+        ["yearsum", ct, y] => {
+            let c = cal!(ct);
+            let y: i32 = p!(y.parse().ok());
+            let sum: u64 = MonthIter::new().map(|m| c.month_shape(y, m).map_or(0, |s| u64::from(s.len()))).sum();
+            format!("{} {} {}", show_year_kind(c.year_kind(y)), c.year_length(y), sum)
+        }
         ["shape", ct, y, m] => {
             let c = cal!(ct);
             let y: i32 = p!(y.parse().ok());
@@ -620,6 +636,33 @@ fn answer_lib(line: &str) -> String {
             let out: Vec<String> = (0..n + 2).map(|_| show_opt_date(&it.next())).collect();
             join(&out, " ")
         }
+        ["iterx", k, ct, j, ops] => {
+            let c = cal!(ct);
+            let j: i32 = p!(j.parse().ok());
+            let d = c.at_jdn(j);
+            let mut it: Box<dyn Iterator<Item = Date>> = match *k {
+                "later" => Box::new(d.later()),
+                "earlier" => Box::new(d.earlier()),
+                "and_later" => Box::new(d.and_later()),
+                _ => Box::new(d.and_earlier()),
+            };
+            let mut out: Vec<String> = Vec::new();
+            for o in ops.chars() {
+                match o {
+                    'x' => out.push(show_opt_date(&it.next())),
+                    'n' => out.push(show_opt_date(&it.nth(1))),
+                    'm' => out.push(show_opt_date(&it.nth(5))),
+                    'k' => out.push(show_opt_date(&it.nth(40))),
+                    'S' => {
+                        let mut sb = it.by_ref().step_by(7);
+                        out.push(show_opt_date(&sb.next()));
+                        out.push(show_opt_date(&sb.next()));
+                    }
+                    _ => {}
+                }
+            }
+            join(&out, " ")
+        }
         ["cmp_date", c1, j1, c2, j2] => {
             let a = cal!(c1);
             let b = cal!(c2);
@@ -682,7 +725,9 @@ fn answer_lib(line: &str) -> String {
             let c = cal!(ct);
             let t: i64 = p!(t.parse().ok());
             match c.at_unix_time(t) {
-                Ok((d, s)) => format!("{} {s}", show_date(&d)),
+                // `same`: the date is the calendar's own date for that day number (C14: "that day
+                // expressed in that calendar") — decided against at_jdn of the same library
+                Ok((d, s)) => format!("{} {s} same={}", show_date(&d), b01(d == c.at_jdn(d.julian_day_number()))),
                 Err(_) => "E:Arithmetic".into(),
             }
         }
@@ -704,7 +749,7 @@ fn answer_lib(line: &str) -> String {
             match mk_system_time(*b == "b", s, n) {
                 None => "UNREP".into(),
                 Some(t) => match c.at_system_time(t) {
-                    Ok((d, x)) => format!("{} {x}", show_date(&d)),
+                    Ok((d, x)) => format!("{} {x} same={}", show_date(&d), b01(d == c.at_jdn(d.julian_day_number()))),
                     Err(_) => "E:Arithmetic".into(),
                 },
             }
@@ -731,6 +776,13 @@ fn answer_lib(line: &str) -> String {
                         .map(|o| match o {
                             'f' => show_opt(it.next()),
                             'b' => show_opt(it.next_back()),
+                            'n' => show_opt(it.nth(1)),
+                            'm' => show_opt(it.nth(3)),
+                            'N' => show_opt(it.nth_back(1)),
+                            'M' => show_opt(it.nth_back(3)),
+                            'c' => format!("c{}", it.clone().count()),
+                            'z' => show_opt(it.clone().last()),
+                            'r' => show_opt(it.clone().rev().last()),
                             _ => {
                                 assert_eq!(it.size_hint(), (it.len(), Some(it.len())));
                                 format!("l{}", it.len())
@@ -754,6 +806,13 @@ fn answer_lib(line: &str) -> String {
                         .map(|o| match o {
                             'f' => show_opt_date(&it.next()),
                             'b' => show_opt_date(&it.next_back()),
+                            'n' => show_opt_date(&it.nth(1)),
+                            'm' => show_opt_date(&it.nth(3)),
+                            'N' => show_opt_date(&it.nth_back(1)),
+                            'M' => show_opt_date(&it.nth_back(3)),
+                            'c' => format!("c{}", it.clone().count()),
+                            'z' => show_opt_date(&it.clone().last()),
+                            'r' => show_opt_date(&it.clone().rev().last()),
                             _ => {
                                 assert_eq!(it.size_hint(), (it.len(), Some(it.len())));
                                 format!("l{}", it.len())
@@ -771,6 +830,13 @@ fn answer_lib(line: &str) -> String {
                 .map(|o| match o {
                     'f' => show_opt(it.next().map(|m| m.number())),
                     'b' => show_opt(it.next_back().map(|m| m.number())),
+                    'n' => show_opt(it.nth(1).map(|m| m.number())),
+                    'm' => show_opt(it.nth(3).map(|m| m.number())),
+                    'N' => show_opt(it.nth_back(1).map(|m| m.number())),
+                    'M' => show_opt(it.nth_back(3).map(|m| m.number())),
+                    'c' => format!("c{}", it.clone().count()),
+                    'z' => show_opt(it.clone().last().map(|m| m.number())),
+                    'r' => show_opt(it.clone().rev().last().map(|m| m.number())),
                     _ => {
                         assert_eq!(it.size_hint(), (it.len(), Some(it.len())));
                         format!("l{}", it.len())
